@@ -762,6 +762,7 @@ func runAuthKeyPlain(c *Ctx) {
 				return "short:" + types.ExprString(ast.Unparen(call.Args[0])), false, true
 			}},
 		}}
+		spec.Vias = append(spec.Vias, validatorVias(p, &PassSpec{Name: "plain-key-inner", Vias: spec.Vias}, []string{"no-nul:", "short:"})...)
 		k := 0
 		f.CFG().Calls(func(r NodeRef, call *ast.CallExpr) {
 			if !calleeIs(info, call, "crypto/hmac", "New") || len(call.Args) != 2 {
@@ -1443,6 +1444,7 @@ func runPeerIDForm(c *Ctx) {
 			return "", false, false
 		}},
 	}}
+	spec.Vias = append(spec.Vias, validatorVias(p, &PassSpec{Name: "peer-id-form-inner", Vias: spec.Vias}, []string{"utf8:", "not-server:"})...)
 	n := 0
 	hw.CFG().Calls(func(r NodeRef, call *ast.CallExpr) {
 		g := p.CalleeInfo(info, call)
@@ -1728,4 +1730,46 @@ func runHandoutLength(c *Ctx) {
 	if n == 0 {
 		c.Bad("handout-length/none", f.Pos(), "nextChunkToSend never hands out a chunk")
 	}
+}
+
+// validatorVias: a function with an error result whose every `return nil` lies past the test (a fact `prefix+<parameter name>`
+// of the spec base) on one of its string parameters establishes that test for its argument where the call's error was tested
+// nil - `if err := checkX(v); err != nil { return }` counts like the tests written in place.
+func validatorVias(p *Program, base *PassSpec, prefixes []string) []Via {
+	var out []Via
+	for _, prefix := range prefixes {
+		prefix := prefix
+		out = append(out, Via{Call: func(g *FuncInfo, call *ast.CallExpr) (string, bool) {
+			h := p.CalleeInfo(g.Info(), call)
+			if h == nil || h.Body == nil || h.Decl == nil || h.Type.Results == nil || len(h.Type.Results.List) != 1 || !isErrorType(h.Info().TypeOf(h.Type.Results.List[0].Type)) {
+				return "", false
+			}
+			idx := 0
+			for _, fl := range h.Type.Params.List {
+				for _, nm := range fl.Names {
+					i := idx
+					idx++
+					if t := h.Info().TypeOf(fl.Type); t == nil || !isStringType(t) || i >= len(call.Args) {
+						continue
+					}
+					nret, all := 0, true
+					for _, b := range h.CFG().Blocks {
+						ret, ok := IsReturnExit(b)
+						if !ok || len(ret.Results) != 1 || types.ExprString(ret.Results[0]) != "nil" {
+							continue
+						}
+						nret++
+						if !base.Passed(h, NodeRef{b, len(b.Nodes) - 1}, prefix+nm.Name) {
+							all = false
+						}
+					}
+					if nret > 0 && all {
+						return prefix + types.ExprString(ast.Unparen(call.Args[i])), true
+					}
+				}
+			}
+			return "", false
+		}})
+	}
+	return out
 }
